@@ -42,9 +42,12 @@ CelFacts(ps, f, l, dig) ==
        [f |-> f, l |-> l, empty |-> FALSE, x |-> c.x, y |-> c.y, tilemap |-> c.kind = "tilemap", ud |-> c.ud, dig |-> dig]
   ELSE [f |-> f, l |-> l, empty |-> TRUE, x |-> 0, y |-> 0, tilemap |-> FALSE, ud |-> None, dig |-> dig]
 
+CelFactFields == {"f", "l", "empty", "x", "y", "tilemap"}
 CelEntryFailing(ps, e) ==
   LET exp == CelFacts(ps, e.f, e.l, e.r1.dig) IN
-  Chk("cel.route_frame_layer", e.r1 = exp) \cup Chk("cel.route_layer_frame", e.r2 = exp) \cup Chk("cel.route_direct", e.r3 = exp)
+  Chk("cel.routes_agree", e.r1 = e.r2 /\ e.r1 = e.r3)
+  \cup Chk("cel.facts", Restrict(e.r1, CelFactFields) = Restrict(exp, CelFactFields))
+  \cup Chk("user_data.cel", e.r1.ud = exp.ud)
   \cup Chk("cel.image", e.image = [w |-> W(ps), h |-> H(ps), px |-> CelImage(ps, e.f, e.l)])
   \cup Chk("cel.tilemap_some", e.tm = TilemapSome(ps, e.l, e.f))
 
@@ -73,6 +76,8 @@ SingleLayerFailing(ps, obs, e) ==
   Chk("frame.single_layer_equals_cel", Len(ls) = 1 => e.dig = CelDig(obs, e.f, ls[1]))
 
 Small(n) == n <= 64
+LayerAttr == {"id", "name", "flags", "blend", "opacity", "ltype", "tileset", "is_tilemap"}
+TagAttr == {"name", "from", "to", "dir", "repeat", "get_same"}
 
 Failing(ps, obs) ==
   IF obs.panics # <<>> THEN {"panics"}
@@ -90,17 +95,24 @@ Failing(ps, obs) ==
   \cup Chk("is_indexed", obs.indexed = (ps.hdr.depth = 8))
   \cup Chk("durations", obs.durations = ps.durations)
   \cup Chk("frame_ids", obs.frame_ids = Idx0(nf))
-  \cup Chk("layers", obs.layers = [i \in 1..nl |-> LayerObs(ps, i - 1)])
+  \cup Chk("layers", /\ Len(obs.layers) = nl
+                     /\ \A i \in 1..nl : Restrict(obs.layers[i], LayerAttr) = Restrict(LayerObs(ps, i - 1), LayerAttr))
+  \cup Chk("parents", Len(obs.layers) = nl /\ \A i \in 1..nl : obs.layers[i].parent = Parent(ps, i - 1))
+  \cup Chk("user_data.layer", Len(obs.layers) = nl /\ \A i \in 1..nl : obs.layers[i].ud = ps.layers[i].ud)
   \cup Chk("visible", obs.visible = [i \in 1..nl |-> Visible(ps, i - 1)])
   \cup Chk("layers_iter", obs.iter_ids = Idx0(nl))
   \cup Chk("layer_by_name", /\ \A k \in DOMAIN obs.by_name : obs.by_name[k].hit = FirstMatch(names, obs.by_name[k].q)
                             /\ Small(nl) => Range(names) \subseteq {obs.by_name[k].q : k \in DOMAIN obs.by_name})
   \cup Chk("num_tags", obs.ntags = Len(tags))
-  \cup Chk("tags", obs.tags = [i \in DOMAIN tags |-> TagObs(tags[i])])
+  \cup Chk("tags", /\ Len(obs.tags) = Len(tags)
+                   /\ \A i \in DOMAIN tags : Restrict(obs.tags[i], TagAttr) = Restrict(TagObs(tags[i]), TagAttr))
+  \cup Chk("user_data.tag", Len(obs.tags) = Len(tags) /\ \A i \in DOMAIN tags : obs.tags[i].ud = tags[i].ud)
   \cup Chk("get_tag_out_of_range", obs.tag_oob_none)
   \cup Chk("tag_by_name", /\ \A k \in DOMAIN obs.tag_by_name : obs.tag_by_name[k].hit = FirstMatch(tnames, obs.tag_by_name[k].q)
                           /\ Small(Len(tags)) => Range(tnames) \subseteq {obs.tag_by_name[k].q : k \in DOMAIN obs.tag_by_name})
-  \cup Chk("slices", obs.slices = ps.slices)
+  \cup Chk("slices", /\ Len(obs.slices) = Len(ps.slices)
+                     /\ \A i \in DOMAIN ps.slices : obs.slices[i].name = ps.slices[i].name /\ obs.slices[i].keys = ps.slices[i].keys)
+  \cup Chk("user_data.slice", Len(obs.slices) = Len(ps.slices) /\ \A i \in DOMAIN ps.slices : obs.slices[i].ud = ps.slices[i].ud)
   \cup Chk("palette", obs.palette = PaletteObs(ps))
   \cup Chk("external_files", /\ Len(obs.extfiles) = Len(ps.extfiles)
                              /\ Range(obs.extfiles) = {[id |-> x.id, id2 |-> x.id, name |-> x.name, get_same |-> TRUE] : x \in Range(ps.extfiles)})
@@ -109,7 +121,7 @@ Failing(ps, obs) ==
                        /\ Range(obs.tilesets) = {TilesetObs(t) : t \in Range(ps.tilesets)})
   \cup Chk("tileset_images", /\ Len(obs.tileset_images) = Len(ps.tilesets)
                              /\ Range(obs.tileset_images) = {TilesetImagesObs(ps, t, TRUE) : t \in Range(ps.tilesets)})
-  \cup Chk("sprite_user_data", obs.sprite_ud = ps.spriteUD)
+  \cup Chk("user_data.sprite", obs.sprite_ud = ps.spriteUD)
   \cup Chk("cels_complete", (Small(nf) /\ Small(nl)) =>
              {<<obs.cels[k].f, obs.cels[k].l>> : k \in DOMAIN obs.cels} = (0..(nf - 1)) \X (0..(nl - 1)) /\ Len(obs.cels) = nf * nl)
   \cup UNION {CelEntryFailing(ps, obs.cels[k]) : k \in DOMAIN obs.cels}
